@@ -72,6 +72,7 @@ class ConstructorMonitor:
                     self.ctx.fail(
                         "L1-constructed-diagram-ill-typed", reason=why,
                         cls=name, fast_path=fast_path, stack=frames,
+                        during_request=getattr(self.ctx, "current_request", None),
                         diagram=lambda: safe_repr(diagram))
         finally:
             self._depth -= 1
